@@ -46,20 +46,21 @@ type qSig struct {
 }
 
 type qGen struct {
-	r       *rand.Rand
-	prefix  string
-	funcs   []qSig
-	cur     *qSig
-	scope   []*qVar
-	nLocals int
-	names   map[string]bool
-	loop    int
-	imports map[string]bool
-	feat    map[string]int
-	nameSeq int
-	budget  int // remaining expression nodes of the current function (keeps programs small)
-	acc     string // int accumulator local of the current function ("" = none)
-	sacc    string // string accumulator local
+	r         *rand.Rand
+	prefix    string
+	funcs     []qSig
+	cur       *qSig
+	scope     []*qVar
+	nLocals   int
+	names     map[string]bool
+	loop      int
+	imports   map[string]bool
+	feat      map[string]int
+	nameSeq   int
+	budget    int    // remaining expression nodes of the current function (keeps programs small)
+	nestFirst bool   // the next statement generated is a nested-loop shape (first statement of a loop-focused function)
+	acc       string // int accumulator local of the current function ("" = none)
+	sacc      string // string accumulator local
 }
 
 var qIntLits = []string{"0", "1", "2", "3", "5", "7", "10", "-1", "-3", "100", "255", "256", "1000000"}
@@ -402,6 +403,11 @@ func (g *qGen) useStmt(v *qVar, lvl int) string {
 	case tInt:
 		return ind(lvl) + g.acc + " = " + g.acc + " + " + v.name
 	case tStr:
+		// inside two loops (always) or one loop (every other time) only the length flows into the result: a string
+		// local that was computed from z0 would otherwise double z0 on every round of every enclosing loop
+		if g.loop >= 2 || (g.loop == 1 && g.chance(0.5)) {
+			return ind(lvl) + g.acc + " = " + g.acc + " + len(" + v.name + ")"
+		}
 		return ind(lvl) + g.sacc + " = " + g.sacc + " + " + v.name
 	default:
 		return ind(lvl) + "if " + v.name + " {\n" + ind(lvl+1) + g.acc + "++\n" + ind(lvl) + "}"
@@ -419,13 +425,7 @@ func (g *qGen) block(n, d, lvl int, allowReturn bool) qBlock {
 		}
 		b.ends = ends
 	}
-	// every local declared in this block must be read somewhere (Go rejects unused variables)
-	var uses []string
-	for _, v := range g.scope[mark:] {
-		if !v.param && v.name != g.acc && v.name != g.sacc && (!v.used || g.acc != "") {
-			uses = append(uses, g.useStmt(v, lvl))
-		}
-	}
+	uses := g.closeScope(mark, lvl)
 	if len(uses) > 0 {
 		if b.ends {
 			last := b.lines[len(b.lines)-1]
@@ -434,8 +434,20 @@ func (g *qGen) block(n, d, lvl int, allowReturn bool) qBlock {
 			b.lines = append(b.lines, uses...)
 		}
 	}
-	g.scope = g.scope[:mark]
 	return b
+}
+
+// closeScope pops the locals declared since mark and returns the statements that read them: every local must
+// be read somewhere (Go rejects unused variables), and with accumulators its final value flows into the result.
+func (g *qGen) closeScope(mark, lvl int) []string {
+	var uses []string
+	for _, v := range g.scope[mark:] {
+		if !v.param && v.name != g.acc && v.name != g.sacc && (!v.used || g.acc != "") {
+			uses = append(uses, g.useStmt(v, lvl))
+		}
+	}
+	g.scope = g.scope[:mark]
+	return uses
 }
 
 func (b qBlock) text() string {
@@ -456,6 +468,11 @@ func (g *qGen) returnStmt(lvl, d int) string {
 }
 
 func (g *qGen) stmt(d, lvl int, allowReturn bool) (string, bool) {
+	if g.nestFirst {
+		g.nestFirst = false
+		g.hit("nest:top-level")
+		return g.nestLoopStmt(d, lvl, allowReturn), false
+	}
 	ed := 2
 	if g.chance(0.3) {
 		ed = 3
@@ -470,7 +487,7 @@ func (g *qGen) stmt(d, lvl int, allowReturn bool) (string, bool) {
 		e := g.expr(ty, ed)
 		name := g.fresh([]string{"n", "s", "b"}[ty])
 		// occasionally reuse the name of a parameter in a nested block (legal Go: it shadows the parameter)
-		if lvl > 1 && g.chance(0.08) && len(g.cur.params) > 0 {
+		if lvl > 1 && g.chance(0.03) && len(g.cur.params) > 0 {
 			p := g.cur.params[g.pick(len(g.cur.params))]
 			if !g.names["shadow:"+p.name] {
 				g.names["shadow:"+p.name] = true
@@ -519,7 +536,10 @@ func (g *qGen) stmt(d, lvl int, allowReturn bool) (string, bool) {
 		}
 		g.hit("stmt:incdec")
 		return ind(lvl) + v.name + []string{"++", "--"}[g.pick(2)], false
-	case k < 40: // compound assignment
+	case k < 40: // compound assignment (rejected by the repaired compiler: one in three keeps the class alive)
+		if !g.chance(0.34) {
+			return g.assignStmt(lvl, ed), false
+		}
 		ty := []qType{tInt, tStr}[g.pick(2)]
 		vs := g.varsOf(ty, true)
 		var loc []*qVar
@@ -546,6 +566,9 @@ func (g *qGen) stmt(d, lvl int, allowReturn bool) (string, bool) {
 	case k < 74: // loop
 		if d <= 0 || g.loop >= 2 || g.nLocals >= 7 {
 			return g.assignStmt(lvl, ed), false
+		}
+		if d >= 2 && g.loop <= 1 && g.nLocals <= 4 && g.chance(0.45) {
+			return g.nestLoopStmt(d, lvl, allowReturn), false
 		}
 		return g.loopStmt(d, lvl, allowReturn), false
 	case k < 86:
@@ -672,7 +695,7 @@ func (g *qGen) loopStmt(d, lvl int, allowReturn bool) string {
 			sb.WriteString(ind(lvl+1) + i + "++\n")
 		}
 		sb.WriteString(ind(lvl) + "}")
-	case k < 9:
+	case k < 9 || !g.chance(0.3):
 		// `for cond && i < bound`: an arbitrary condition in front of the guard
 		g.hit("loop:for-cond-and")
 		sb.WriteString(ind(lvl) + "for " + g.cond(2) + " && " + i + " < " + bound + " {\n")
@@ -698,6 +721,212 @@ func (g *qGen) loopStmt(d, lvl int, allowReturn bool) string {
 		sb.WriteString(ind(lvl) + "}")
 	}
 	g.loop--
+	return sb.String()
+}
+
+// exitCond is a condition for leaving a loop from inside its body: over the loop counter alone (true on some
+// iteration whatever the arguments are; base is the counter's value in the first iteration), over a parameter,
+// or a mixture.  The second result says that the condition does not depend on the arguments.
+func (g *qGen) exitCond(i string, base, rounds int) (string, bool) {
+	k := base + g.pick(rounds)
+	counter := fmt.Sprintf("(%s >= %d)", i, k)
+	if g.chance(0.3) {
+		counter = fmt.Sprintf("(%s == %d)", i, k)
+	}
+	var ints, strs []string
+	for _, p := range g.cur.params {
+		switch p.ty {
+		case tInt:
+			ints = append(ints, p.name)
+		case tStr:
+			strs = append(strs, p.name)
+		}
+	}
+	switch c := g.pick(10); {
+	case c < 4:
+		return counter, true
+	case c < 5 && len(ints) > 0:
+		return fmt.Sprintf("(%s >= %s)", i, ints[g.pick(len(ints))]), false
+	case c < 6 && len(strs) > 0:
+		return fmt.Sprintf("(%s >= len(%s))", i, strs[g.pick(len(strs))]), false
+	case c < 8:
+		return "(" + counter + " " + []string{"&&", "||"}[g.pick(2)] + " " + g.cond(2) + ")", false
+	case c < 9:
+		return g.cond(2), false
+	}
+	return counter, true
+}
+
+// effect is a statement that makes one more round of a loop visible in the function's result.
+func (g *qGen) effect(n, i string, lvl int) string {
+	switch g.pick(4) {
+	case 0:
+		return ind(lvl) + n + "++"
+	case 1:
+		return ind(lvl) + n + " = " + n + " + " + []string{"2", "3", "10", "100"}[g.pick(4)]
+	case 2:
+		return ind(lvl) + n + " = (" + n + " + " + i + ") + 1"
+	default:
+		if g.sacc != "" {
+			return ind(lvl) + g.sacc + " = " + g.sacc + " + " + strconv.Quote([]string{"a", "b", "x", "ab"}[g.pick(4)])
+		}
+		return ind(lvl) + n + "++"
+	}
+}
+
+// nestLoopStmt generates an outer loop whose body contains a nested loop (any loop shape, possibly two, possibly
+// itself a nest) and, *behind* it, a way out of the outer loop: `if c { break }`, a block ending in break, break in
+// an else branch, break under two ifs, a bare break.  The single-pass compiler keeps the jump targets of the
+// innermost loop in its state and must restore them after the inner loop; the shapes here are the ones in which a
+// stale target is used.  The exit condition mostly reads the loop counter, so that the break is executed whatever
+// the arguments are; the counter is advanced at the top, in the middle or at the end of the body, so that a break
+// that behaves like `continue` shows either as a different number of rounds or as a loop that never ends.
+func (g *qGen) nestLoopStmt(d, lvl int, allowReturn bool) string {
+	var sb strings.Builder
+	i := g.fresh("i")
+	n := g.fresh("n")
+	rounds := 2 + g.pick(3)
+	bound := strconv.Itoa(rounds)
+	if g.chance(0.15) {
+		for _, v := range g.varsOf(tStr, false) {
+			if v.param {
+				bound = "len(" + v.name + ")"
+				break
+			}
+		}
+	}
+	sb.WriteString(ind(lvl) + i + " := 0\n")
+	sb.WriteString(ind(lvl) + n + " := 0\n")
+	g.declare(&qVar{name: i, ty: tInt, readonly: true, used: true})
+	g.declare(&qVar{name: n, ty: tInt, readonly: true})
+	g.loop++
+	incPos := g.pick(3) // where the counter is advanced: 0 top, 1 between the nested loop and the exit, 2 end
+	g.hit("nest:inc-" + []string{"top", "mid", "end"}[incPos])
+	switch k := g.pick(10); {
+	case k < 5:
+		g.hit("nest:outer-for-cond")
+		sb.WriteString(ind(lvl) + "for " + i + " < " + bound + " {\n")
+	case k < 9:
+		g.hit("nest:outer-for-ever")
+		sb.WriteString(ind(lvl) + "for {\n")
+		sb.WriteString(ind(lvl+1) + "if " + i + " >= " + bound + " {\n" + ind(lvl+2) + "break\n" + ind(lvl+1) + "}\n")
+	default:
+		g.hit("nest:outer-for-cond-and")
+		sb.WriteString(ind(lvl) + "for " + g.cond(2) + " && " + i + " < " + bound + " {\n")
+	}
+	mark := len(g.scope)
+	base := 0
+	if incPos == 0 {
+		sb.WriteString(ind(lvl+1) + i + "++\n")
+		base = 1
+	}
+	sb.WriteString(g.effect(n, i, lvl+1) + "\n")
+	ended := false
+	if g.chance(0.4) {
+		pre := g.block(1, d-2, lvl+1, false)
+		sb.WriteString(pre.text())
+	}
+	if g.chance(0.15) {
+		// control: a way out *before* the nested loop
+		c, _ := g.exitCond(i, base, rounds)
+		g.hit("nest:break-before")
+		sb.WriteString(ind(lvl+1) + "if " + c + " {\n" + ind(lvl+2) + "break\n" + ind(lvl+1) + "}\n")
+	}
+	// the nested loop(s); without returns in two cases out of three, so that the exit behind them is reached
+	innerReturn := allowReturn && g.chance(0.33)
+	inners := 1
+	if g.chance(0.15) {
+		inners = 2
+	}
+	for k := 0; k < inners; k++ {
+		inIf := g.chance(0.15)
+		l := lvl + 1
+		if inIf {
+			g.hit("nest:inner-under-if")
+			sb.WriteString(ind(l) + "if " + g.cond(2) + " {\n")
+			l++
+		}
+		imark := len(g.scope)
+		if g.loop <= 1 && g.nLocals <= 4 && g.chance(0.2) {
+			g.hit("nest:three-levels")
+			sb.WriteString(g.nestLoopStmt(d-1, l, innerReturn) + "\n")
+		} else {
+			sb.WriteString(g.loopStmt(d-1, l, innerReturn) + "\n")
+		}
+		if inIf {
+			for _, u := range g.closeScope(imark, l) {
+				sb.WriteString(u + "\n")
+			}
+			sb.WriteString(ind(lvl+1) + "}\n")
+		}
+	}
+	// the inner counters flow into the result before the exit is taken
+	for _, u := range g.closeScope(mark, lvl+1) {
+		sb.WriteString(u + "\n")
+	}
+	if g.chance(0.3) {
+		mid := g.block(1, d-2, lvl+1, allowReturn && g.chance(0.3))
+		sb.WriteString(mid.text())
+		ended = mid.ends
+	}
+	if incPos == 1 && !ended {
+		sb.WriteString(ind(lvl+1) + i + "++\n")
+		base = 1
+	}
+	if !ended {
+		c, always := g.exitCond(i, base, rounds)
+		form := g.pick(10)
+		switch {
+		case form < 4:
+			g.hit("nest:exit-if-break")
+			sb.WriteString(ind(lvl+1) + "if " + c + " {\n" + ind(lvl+2) + "break\n" + ind(lvl+1) + "}\n")
+		case form < 6:
+			g.hit("nest:exit-block-break")
+			sb.WriteString(ind(lvl+1) + "if " + c + " {\n" + g.effect(n, i, lvl+2) + "\n" + ind(lvl+2) + "break\n" + ind(lvl+1) + "}\n")
+		case form < 7:
+			g.hit("nest:exit-else-break")
+			sb.WriteString(ind(lvl+1) + "if !" + c + " {\n" + g.effect(n, i, lvl+2) + "\n" + ind(lvl+1) + "} else {\n" + ind(lvl+2) + "break\n" + ind(lvl+1) + "}\n")
+		case form < 8:
+			g.hit("nest:exit-if-if-break")
+			c2, a2 := g.exitCond(i, base, rounds)
+			always = always && a2
+			sb.WriteString(ind(lvl+1) + "if " + c + " {\n" + ind(lvl+2) + "if " + c2 + " {\n" + ind(lvl+3) + "break\n" + ind(lvl+2) + "}\n" +
+				g.effect(n, i, lvl+2) + "\n" + ind(lvl+1) + "}\n")
+		case form < 9:
+			g.hit("nest:exit-bare-break")
+			sb.WriteString(ind(lvl+1) + "break\n")
+			ended = true
+		default:
+			g.hit("nest:no-exit")
+			always = false
+		}
+		if always && !innerReturn {
+			g.hit("nest:exit-independent-of-arguments")
+		}
+	}
+	if !ended && incPos != 2 && g.chance(0.03) {
+		// `continue` is not in the accepted subset: the compiler must reject the function (and the model with it)
+		c, _ := g.exitCond(i, base, rounds)
+		g.hit("nest:continue-rejected")
+		sb.WriteString(ind(lvl+1) + "if " + c + " {\n" + ind(lvl+2) + "continue\n" + ind(lvl+1) + "}\n")
+	}
+	if !ended {
+		// statements behind the exit: executed by the rounds that stay in the loop
+		if g.chance(0.6) {
+			sb.WriteString(g.effect(n, i, lvl+1) + "\n")
+		}
+		if g.chance(0.3) {
+			post := g.block(1, d-2, lvl+1, allowReturn && g.chance(0.3))
+			sb.WriteString(post.text())
+			ended = post.ends
+		}
+	}
+	if incPos == 2 && !ended {
+		sb.WriteString(ind(lvl+1) + i + "++\n")
+	}
+	sb.WriteString(ind(lvl) + "}")
+	g.loop--
+	g.hit("nest:loop-then-exit")
 	return sb.String()
 }
 
@@ -737,7 +966,9 @@ func (g *qGen) function(idx int) (string, qSig) {
 	}
 	sb.WriteString("func " + sig.name + "(" + strings.Join(ps, ", ") + ")" + res + " {\n")
 	g.acc, g.sacc = "", ""
-	if sig.res != tVoid && g.chance(0.8) {
+	// one function in five starts with a nested-loop shape at the top level of its body: every argument tuple reaches it
+	nestFirst := sig.res != tVoid && g.chance(0.2)
+	if sig.res != tVoid && (nestFirst || g.chance(0.8)) {
 		// accumulators: every local's final value is folded into them and they are folded into the result
 		g.acc, g.sacc = "a0", "z0"
 		g.names["a0"], g.names["z0"] = true, true
@@ -749,6 +980,10 @@ func (g *qGen) function(idx int) (string, qSig) {
 	if g.chance(0.15) {
 		n = 0
 	}
+	if nestFirst && n == 0 {
+		n = 1
+	}
+	g.nestFirst = nestFirst
 	body := g.block(n, 3, 1, true)
 	// block() popped the scope of the body; the final return may use the parameters and the accumulators
 	sb.WriteString(body.text())
